@@ -23,6 +23,8 @@ class MemFS(object):
         self.complete = complete            # callable(fn, label): schedule completion of an aio op
         self.on_effect = None               # callable(k) after the k-th effect was applied
         self.short_chooser = None           # Chooser: an aio request may complete for fewer bytes than asked (legal for pyaio)
+        self.fail_at = None                 # int k: the k-th counted request (create temp file, aio write, rename) fails with ENOSPC
+        self.io_count = 0
         self.O_RDONLY = _os.O_RDONLY
 
     # ---- effect log
@@ -34,6 +36,12 @@ class MemFS(object):
     def snapshot(self, k):
         """FS contents after the first k effects."""
         return dict(self.base) if k == 0 else dict(self.log[k - 1][1])
+
+    def _faulty(self):
+        """True when this counted request is the one chosen to fail"""
+        k = self.io_count
+        self.io_count += 1
+        return self.fail_at is not None and k == self.fail_at
 
     # ---- os shim
     def os_module(self):
@@ -58,6 +66,8 @@ class MemFS(object):
     def rename(self, src, dst):
         if src not in self.files:
             raise OSError(errno.ENOENT, _os.strerror(errno.ENOENT), src)
+        if self._faulty():
+            raise OSError(errno.ENOSPC, _os.strerror(errno.ENOSPC), dst)
         self.files[dst] = self.files.pop(src)
         for fd, p in list(self.fds.items()):
             if p == src:
@@ -76,6 +86,8 @@ class MemFS(object):
 
     def mkstemp(self, dir=None, **kw):
         d = dir or '/tmp'
+        if self._faulty():
+            raise OSError(errno.ENOSPC, _os.strerror(errno.ENOSPC), d)
         self.tmp_counter += 1
         path = '%s/tmp%06d' % (d.rstrip('/'), self.tmp_counter)
         self.files[path] = b''
@@ -108,6 +120,9 @@ class MemFS(object):
             path = self.fds.get(fd)
             if path is None or path not in self.files:
                 callback(-1, errno.EBADF)
+                return
+            if self._faulty():
+                callback(-1, errno.ENOSPC)
                 return
             piece = piece[:self._short('write', len(piece))]
             cur = self.files[path]
